@@ -305,7 +305,7 @@ func C13(r *eng.Run) {
 		rec([]byte{alpha[k]})
 	})
 	r.Seq(func(w *eng.W) { checkUnmarshalJSON(w, "") })
-	r.States.Add(int64(len(alpha)) * 9)
+	r.States.Add(r.Evals())
 	r.Phase("all strings", t0, nil)
 
 	// structured JSON numbers
